@@ -119,7 +119,7 @@ func NewVM(c Cfg) *ds.Context {
 }
 
 // HostValues are the names served by InstallHostValues.
-var HostValues = []string{"gi", "gs", "ga", "gd", "gc", "&gc", "gself", "gcs", "gca", "gf", "gfbad", "gn", "gn0", "gnf"}
+var HostValues = []string{"gi", "gs", "ga", "gd", "gc", "&gc", "gself", "gcs", "gca", "gf", "gfbad", "gn", "gn0", "gnf", "gfresh", "gfreshf"}
 
 // InstallHostValues makes the VM see variables the way an embedding program supplies them: through
 // GlobalValueLoadFunc / GlobalValueStoreFunc over a host-side table. The table holds plain values, computed values
@@ -158,7 +158,15 @@ func InstallHostValues(vm *ds.Context) {
 		Name: "gnf", Params: []string{"a"},
 		NativeFunc: func(ctx *ds.Context, this *ds.VMValue, params []*ds.VMValue) *ds.VMValue { return params[0] },
 	})
-	vm.GlobalValueLoadFunc = func(name string) *ds.VMValue { return tbl[name] }
+	vm.GlobalValueLoadFunc = func(name string) *ds.VMValue {
+		switch name {
+		case "gfresh": // a loader that builds the value anew on every load (never compiled, every time)
+			return ds.NewComputedVal("gi + 2d1")
+		case "gfreshf":
+			return ds.NewFunctionValRaw(&ds.FunctionData{Expr: "gi + 2d1", Name: "gfreshf"})
+		}
+		return tbl[name]
+	}
 	vm.GlobalValueStoreFunc = func(name string, v *ds.VMValue) { tbl[name] = v }
 }
 
